@@ -16,7 +16,7 @@ import (
 // C06: restart after any crash point loses no acknowledged record and reuses no offset.
 //
 // Closed system: one broker incarnation serves 2-4 produce requests (acks=-1,
-// flush-on-ack) from 1-2 client threads; the explorer may crash it before any S3 or
+// flush-on-ack) from 1-3 client threads; the explorer may crash it before any S3 or
 // metadata-store operation (after a crash every later operation of that incarnation
 // fails without effect and its replies are not delivered) and may make S3 uploads
 // fail. Then a fresh broker over the same bucket and store must serve every record
@@ -35,6 +35,8 @@ func c06Scenarios() []c06Scenario {
 		{Name: "1p-2req", Producers: [][]int{{1, 2}}, FailS3: true},
 		{Name: "1p-3req", Producers: [][]int{{1, 2, 1}}, FailS3: true},
 		{Name: "2p-1req", Producers: [][]int{{1}, {2}}, FailS3: true},
+		// one flush in upload while two producers wait for it: the waiters' wake-up order and re-checks
+		{Name: "3p-1req", Producers: [][]int{{1}, {2}, {1}}, Delay: true},
 	}
 	if vh.Thorough() {
 		sc = append(sc,
